@@ -113,6 +113,12 @@ def gen_cases(tier: str, verif_seed: int, runs: int | None = None) -> list[dict]
                     val = VALUES[(rep + len(cases)) % 3] if tier == "quick" else p.choice(VALUES)
                     src = p.choice(["df", "df", "hdf5", "fits", "parquet"])
                     cases.append(_base(p, w, source=src, fault=dict(kind="nonfinite", column=col, value=val, pos=pos, offset=p.below(50))))
+                # a float-typed patch-index column with a non-finite entry
+                p = prng()
+                c = _base(p, w, source=p.choice(["df", "df", "hdf5", "parquet"]), fault=dict(kind="nonfinite", column="pid", value=VALUES[(rep + len(cases)) % 3], pos=pos, offset=p.below(50)))
+                c["patch"]["mode"] = "divide"
+                c["patch"]["pid_dtype"] = "f8"
+                cases.append(c)
                 for val in (-1, 32768, 40000, 65536, 65536 * 3 + 7):
                     p = prng()
                     c = _base(p, w, fault=dict(kind="pid_range", value=val, pos=pos, offset=p.below(50)))
@@ -332,7 +338,7 @@ def evaluate(case: dict, o: dict) -> tuple[dict | None, str | None]:
         fired = o["probes"].get("fault_pool_memerror_fired", 0) > 0
     if kind == "writer_killed":
         fired = bool(o["fault_fired"].get("kill_task"))
-    if kind == "nonfinite" and fault["column"] not in o["records"]:
+    if kind == "nonfinite" and fault["column"] != "pid" and fault["column"] not in o["records"]:
         fired = False
     if kind == "stalled_peer":
         # giving up may be reported (raise) or overcome (retry): both are fine, each with its obligations
